@@ -419,6 +419,9 @@ func fullAlphabet(thorough bool) []Kind {
 		Kind{IsBlock: true, Mode: BSet, Inner: 2},
 		Kind{IsBlock: true, Mode: BMap, NLabels: 1, Inner: 2},
 		Kind{IsBlock: true, Mode: BMap, NLabels: 2, Inner: 1},
+		// four labels: the JSON spelling nests one object level per label
+		Kind{IsBlock: true, Mode: BMap, NLabels: 4, Inner: 1},
+		Kind{IsBlock: true, Mode: BList, NLabels: 4, Inner: 1},
 	)
 	if thorough {
 		ks = append(ks,
